@@ -101,7 +101,7 @@ Init == l = 1 /\ zl = 0
 Next == /\ l <= Len(Rec)
         /\ LET r == Rec[l] IN
            /\ zl' = IF r.op = "zone" THEN l ELSE zl
-           /\ LET w == Why(r) IN IF w = "" THEN TRUE ELSE PrintT(<<"MISMATCH", l, w>>)
+           /\ LET w == Why(r) IN IF w = "" THEN TRUE ELSE PrintT("MISMATCH|" \o ToString(l) \o "|" \o w)
         /\ l' = l + 1
 Spec == Init /\ [][Next]_vars
 Consumed == TLCGet("stats").diameter = Len(Rec) + 1
